@@ -331,8 +331,34 @@ func genC09(r *Rng, tier string, i int) map[string]any {
 		case 1:
 			pos = len(t.rows)
 		}
-		t.rows = append(t.rows[:pos], append([][]string{row}, t.rows[pos:]...)...)
-		inserted = append(inserted, map[string]any{"file": file, "cause": b.cause, "at": pos})
+		// "any number of such rows": a run of 1-3 copies of the same rejected row, consecutively
+		run := 1
+		if r.P(1, 2) {
+			run = 2 + r.Intn(2)
+		}
+		for q := 0; q < run; q++ {
+			t.rows = append(t.rows[:pos], append([][]string{append([]string{}, row...)}, t.rows[pos:]...)...)
+		}
+		inserted = append(inserted, map[string]any{"file": file, "cause": b.cause, "at": pos, "run": run})
+	}
+	// the orphaned rows of a rejected trip: a trips.txt row that is rejected (unknown route) and several
+	// stop_times / frequencies rows that name it, placed after rows of a valid trip
+	if r.P(1, 3) {
+		tp, stt, fq := g.tables["trips.txt"], g.tables["stop_times.txt"], g.tables["frequencies.txt"]
+		row := append([]string{}, templateRows["trips.txt"]...)
+		row[0], row[2] = "NOPE", "TORPHAN"
+		tp.rows = append(tp.rows, row)
+		pos := r.Intn(len(stt.rows) + 1)
+		n := 2 + r.Intn(3)
+		for q := 0; q < n; q++ {
+			sr := append([]string{}, templateRows["stop_times.txt"]...)
+			sr[0], sr[4] = "TORPHAN", fmt.Sprintf("%d", 70+q)
+			stt.rows = append(stt.rows[:pos], append([][]string{sr}, stt.rows[pos:]...)...)
+		}
+		fr := append([]string{}, templateRows["frequencies.txt"]...)
+		fr[0] = "TORPHAN"
+		fq.rows = append(fq.rows, fr, append([]string{}, fr...))
+		inserted = append(inserted, map[string]any{"file": "stop_times.txt", "cause": "orphaned-rows-of-rejected-trip", "at": pos, "run": n})
 	}
 	// row numbers of the inserted agency rows (after all insertions)
 	for _, x := range inserted {
